@@ -74,6 +74,24 @@ CHECKS = {
   note="Trusted: core's Merkle/encoding/ed25519, TLC; hashes and signatures treated as ideal. RPCLatestRevision/RPCAccountBalance are informational (unauthenticated by design). In-memory transport. Three findings repaired (a430e65, 60c450d, ff651f4).",
   technique='TLA+ fault-space enumeration + exhaustive MITM replay into the real client/server + TLC trace validation',
   ref='5 C10 / 11.4'),
+ "C09": dict(
+  level='model_checking',
+  text="TLC decides Host.tla (family roots) over the complete reachable state space for contracts of 0..5 sectors x every index list (any order, duplicates, out of range) x every abort round, two sessions racing for the contract lock, plus the client-API list-model lemma for sizes 0..6. Every transition of the one-exchange graph is executed on the real rhp4.Server with the reference contractor through raw exchanges built with core's encoders: after EVERY step (success, failure, abort at any round) the LockV2Contract state is compared (MetaRoot(roots) = revision root, count x SectorSize = Filesize, roots = list model), RPCSectorRoots over all sub-ranges verifies and every listed sector reads back. Random adversarial append/free sessions (unknown roots mixed in, aborts) and the exhaustive client-API free of all index lists are validated by TLC.",
+  note="Trusted: TLC, Go runtime, core's Merkle and signature code. Initial states installed through Contractor.ReviseV2Contract; amounts in units of 4096 H; in-memory transport; the harness waits for the server-side stream close between RPCs (the reference contract lock is a try-lock released after the last response). Finding C09-free-sectors-alias repaired (6350cf0).",
+  technique='TLA+ spec Host.tla + TLC exhaustive; edge-cover replay into the real rhp4.Server over the in-memory transport; TLC trace validation of recorded RPC-level and Contractor-call-level executions',
+  ref='5 C09 / 11.4'),
+ "C15": dict(
+  level='model_checking',
+  text='TLC decides Host.tla (family accounts) for 2 accounts x 2 pools with balances at, just below and just above every cost, up to 3 commits, every corruption class (CreditBacked, DebitIsPrice, PaidBeforeService, NonNegative, InsufficientIsNoop, ReplenishToTarget, AttachNeedsSignature). From 30 catalogue ledger states every fund/replenish/attach/detach/read/write/verify RPC x every corruption class is replayed on the real host with reply, the recorded Debit -> Read/Store call order (recording Contractor and Sectors wrappers, sequence numbers taken inside the wrapped call) and all balances compared; random sessions are validated by TLC.',
+  note="Sequential RPCs; attachments are observable only through the debits they enable; core's RPC*Cost functions trusted. Finding C15-replenish-duplicates repaired (5215a1b).",
+  technique='TLA+ spec Host.tla + TLC exhaustive; edge-cover replay into the real rhp4.Server over the in-memory transport; TLC trace validation of recorded RPC-level and Contractor-call-level executions',
+  ref='5 C15 / 11.4'),
+ "C08": dict(
+  level='model_checking',
+  text="TLC decides Host.tla (family revisions) for two and three renter sessions interleaved at every stream read/write, every revising RPC x every corruption class (bad challenge or revision signature, stale/future revision number, signature over another revision, expired/foreign/tampered price table, out-of-range parameters, replay, silence): RevMonotone, DoublySigned, Immutable, NoHostToRenter, PayoutSumConstant, ExactCharge, BadRequestIsNoop, SerialisedPerContract. The full edge cover is replayed on the real host; every committed revision is checked with core's signature verification over exactly that revision and consensus.ValidateV2Transaction against the on-chain element; sequences of 50-500 RPCs and 2-4 concurrent renter goroutines on one contract are validated by TLC from the recorded Contractor calls.",
+  note='Renew/refresh economics belong to C16. The reference contractor re-verifies signatures, so a dropped server-side check shows up as a failed contractor call. Amounts kept below 2^31 in what TLC sees; Go-side arithmetic exact.',
+  technique='TLA+ spec Host.tla + TLC exhaustive; edge-cover replay into the real rhp4.Server over the in-memory transport; TLC trace validation of recorded RPC-level and Contractor-call-level executions; per-commit signature and consensus oracles',
+  ref='5 C08 / 11.4'),
 }
 
 NOT_APPLICABLE = {
